@@ -164,6 +164,67 @@ def _pair(item):
     return None
 
 
+def _resized(item):
+    """A parent whose width was looked at, one of whose signals is then re-sized, and which is indexed after that: the
+    index is judged against the list of the parent's bits as they are when it is taken."""
+    import hdl21 as h
+
+    kind, W1, W2, Wb, index = item
+    m = h.Module(name="Top")
+    m.a, m.b = h.Signal(width=W1), h.Signal(width=Wb)
+    par = {"concat_ab": lambda: h.Concat(m.a, m.b), "concat_ba": lambda: h.Concat(m.b, m.a), "signal": lambda: m.a,
+           "concat_of_concat": lambda: h.Concat(h.Concat(m.b, m.a), m.b)}[kind]()
+    la, lb = [("a", i) for i in range(W2)], [("b", i) for i in range(Wb)]
+    bits = {"concat_ab": la + lb, "concat_ba": lb + la, "signal": la, "concat_of_concat": lb + la + lb}[kind]
+    if par.width != len(bits) - W2 + W1:
+        return "harness: unexpected initial width"
+    m.a.width = W2
+    cls, pos = classify(len(bits), index, "unit")
+    want = [bits[k] for k in pos]
+    try:
+        e = par[index] if isinstance(index, int) else par[slice(*index)]
+        U = h.ExternalModule(name=f"U{len(want) or 1}", port_list=[h.Port(name="a", width=len(want) or 1)], paramtype=dict, domain="hv")
+        m.u = U(dict())(a=e)
+        width = e.width
+        pkg = h.to_proto(m)
+    except Exception as ex:
+        return None if cls != "must_accept" else f"{kind}[{index}] after re-sizing a part ({W1}->{W2} bits): in-range index rejected: {short_exc(ex)}"
+    pm = [x for x in pkg.modules if x.name.endswith("Top")][0]
+    widths = {s_.name: s_.width for s_ in pm.signals}
+
+    def tbits(t):
+        k = t.WhichOneof("stype")
+        if k == "sig":
+            return [(t.sig, i) for i in range(widths[t.sig])]
+        if k == "slice":
+            return [(t.slice.signal, i) for i in range(t.slice.bot, t.slice.top + 1)]
+        return [x for part in reversed(t.concat.parts) for x in tbits(part)]
+
+    got = tbits([c for c in pm.instances[0].connections if c.portname == "a"][0].target)
+    if any(not (0 <= i < widths[n]) for n, i in got):
+        return f"{kind}[{index}] after re-sizing a part ({W1}->{W2} bits): the package names a bit outside its signal: {got}"
+    if cls == "must_reject":
+        return f"{kind}[{index}] after re-sizing a part ({W1}->{W2} bits): ill-formed index accepted"
+    if width != len(want) or got != want:
+        return f"{kind}[{index}] after re-sizing a part ({W1}->{W2} bits): width {width}, exported {got}; Python selects {want}"
+    return None
+
+
+def resized_items(quick):
+    out = []
+    for kind in ("concat_ab", "concat_ba", "signal", "concat_of_concat"):
+        for W1 in (1, 2, 3):
+            for W2 in (1, 2, 3, 4):
+                for Wb in (1, 2):
+                    if W1 == W2 or (quick and Wb == 2 and kind != "concat_ab"):
+                        continue
+                    W = {"concat_ab": W2 + Wb, "concat_ba": W2 + Wb, "signal": W2, "concat_of_concat": W2 + 2 * Wb}[kind]
+                    for index in indices(W):
+                        if isinstance(index, int) or index[2] in (None, 1, -1):
+                            out.append((kind, W1, W2, Wb, index))
+    return out
+
+
 def pair_items(W):
     """All ordered pairs of distinct selections (one spelling each) that share their lowest and highest bit."""
     bits = list(range(W))
@@ -243,6 +304,12 @@ def run(ctx):
         ctx.fam("two_slices_one_module", cases=1)
         if bad:
             ctx.violation(dict(parent="signal", index="two slices", cls="raise_or_correct", what="two slices of one signal in one module"), dict(pair=[it[0], list(it[1]), list(it[2])]), bad)
+    ritems = resized_items(ctx.quick)
+    for it, bad in zip(ritems, ctx.pmap(_resized, ritems, chunk=200)):
+        ctx.count(states=1, transitions=3, traces_validated_against_impl=1)
+        ctx.fam("resized_after_width_read", cases=1)
+        if bad:
+            ctx.violation(dict(parent=it[0], index="int" if isinstance(it[4], int) else "slice", cls="resized", what="index after a part was re-sized"), dict(resized=[it[0], it[1], it[2], it[3], it[4] if isinstance(it[4], int) else list(it[4])]), bad)
     for k in (0, len(items) // 3, len(items) - 1):
         ctx.sample(dict(W=items[k][0], parent=items[k][1], index=items[k][4]))
     ctx.assume("oracle = Python list indexing; non-unit steps and bounds beyond [-W,W] are judged raise-or-correct as the statement allows")
@@ -250,6 +317,11 @@ def run(ctx):
 
 def replay(body):
     c = body["case"]
+    if "resized" in c:
+        z = c["resized"]
+        r = _resized((z[0], z[1], z[2], z[3], z[4] if isinstance(z[4], int) else tuple(z[4])))
+        print("replay:", r or "holds")
+        return 1 if r else 0
     if "pair" in c:
         r = _pair((c["pair"][0], tuple(c["pair"][1]), tuple(c["pair"][2])))
         print("replay:", r or "holds")
